@@ -73,7 +73,7 @@ def random_specs(rng, n):
             if rng.random() < 0.3:
                 v.fields = [Field("u8")]
             vs.append(v)
-        out.append(EnumSpec("R%d" % t, vs, derives=["EnumProperty"], role="random", note="random"))
+        out.append(decorate(rng, EnumSpec("R%d" % t, vs, derives=["EnumProperty"], role="random", note="random"), allow_props=False))
     return out
 
 
